@@ -148,6 +148,8 @@ pub struct ExecResult {
     pub concurrent: BTreeSet<String>,
     pub trylocked: BTreeSet<String>,
     pub threads: Vec<(String, bool, bool)>,
+    /// set by `explore`: this execution is also run by another worker process (root and first level), which counts it
+    pub duplicate: bool,
 }
 
 type Job = Box<dyn FnOnce() + Send + 'static>;
@@ -185,7 +187,15 @@ fn pool_run(job: Job) {
         .expect("spawn pool thread");
 }
 
+/// OS threads abandoned in executions that did not finish (deadlock, stuck, horizon): they stay parked for the
+/// life of the process. The engine stops exploring a scenario when too many have piled up.
+pub static ABANDONED_THREADS: std::sync::atomic::AtomicUsize = std::sync::atomic::AtomicUsize::new(0);
+
+/// an execution that creates more controlled threads than this is cut off with outcome Horizon
+pub const MAX_THREADS_PER_EXECUTION: usize = 40;
+
 fn park_forever() -> ! {
+    ABANDONED_THREADS.fetch_add(1, std::sync::atomic::Ordering::Relaxed);
     loop {
         std::thread::park_timeout(Duration::from_secs(3600));
     }
@@ -600,6 +610,7 @@ impl Sched {
             concurrent: s.concurrent.clone(),
             trylocked: s.trylocked.clone(),
             threads: s.threads.iter().map(|t| (t.name.clone(), t.finished, t.panicked)).collect(),
+            duplicate: false,
         }
     }
 }
@@ -697,6 +708,14 @@ impl Runtime for Rt {
         let me = ME.with(|m| m.get()).unwrap_or(0);
         let idx = {
             let mut s = self.0.lock();
+            if s.threads.len() >= MAX_THREADS_PER_EXECUTION && s.done.is_none() {
+                // runaway thread creation (e.g. an <invoke> started over and over): cut the execution off
+                s.done = Some(Outcome::Horizon);
+                self.0.cv.notify_all();
+                self.0.done_cv.notify_all();
+                drop(s);
+                park_forever();
+            }
             s.threads[me].children += 1;
             let name = format!("{}.{}", s.threads[me].name, s.threads[me].children);
             let vc = s.threads[me].vc.clone();
@@ -898,17 +917,25 @@ pub fn explore(
     loop {
         // one pass with the current shared-object set
         let mut grew = false;
-        let mut stack: Vec<Vec<String>> = vec![vec![]];
-        let mut first = true;
+        // (forced prefix, level: 0 root / 1 first-level alternative / 2 deeper, index within the level)
+        let mut stack: Vec<(Vec<String>, u8, usize)> = vec![(vec![], 0, 0)];
+        let mut l2_counter = 0usize;
         stats.executions = 0;
         stats.choice_points = 0;
         stats.steps = 0;
-        'pass: while let Some(prefix) = stack.pop() {
+        'pass: while let Some((prefix, level, idx)) = stack.pop() {
             if stats.executions >= max_executions {
                 stats.capped = true;
                 break;
             }
-            let r = sched.run_once((h.body)(), &prefix, &shared, h.atomics, false, h.horizon);
+            let mut r = sched.run_once((h.body)(), &prefix, &shared, h.atomics, false, h.horizon);
+            // the root and the first level are executed by every worker (they are few); the second-level
+            // alternatives are dealt out round-robin, which balances the subtrees far better than the first level
+            r.duplicate = match level {
+                0 => slice.0 != 0,
+                1 => idx % slice.1 != slice.0,
+                _ => false,
+            };
             stats.executions += 1;
             stats.choice_points += r.choices.len() as u64;
             stats.steps += r.steps.len() as u64;
@@ -945,18 +972,24 @@ pub fn explore(
                     alts.push(p);
                 }
             }
-            if first {
-                first = false;
-                // first level split among workers
-                let mine: Vec<Vec<String>> = alts
-                    .into_iter()
-                    .enumerate()
-                    .filter(|(i, _)| i % slice.1 == slice.0)
-                    .map(|(_, a)| a)
-                    .collect();
-                stack.extend(mine.into_iter().rev());
-            } else {
-                stack.extend(alts.into_iter().rev());
+            match level {
+                0 => {
+                    let n = alts.len();
+                    stack.extend(alts.into_iter().enumerate().map(|(i, a)| (a, 1u8, i)).rev().collect::<Vec<_>>());
+                    let _ = n;
+                }
+                1 => {
+                    let mut mine = vec![];
+                    for a in alts {
+                        let k = l2_counter;
+                        l2_counter += 1;
+                        if k % slice.1 == slice.0 {
+                            mine.push((a, 2u8, k));
+                        }
+                    }
+                    stack.extend(mine.into_iter().rev());
+                }
+                _ => stack.extend(alts.into_iter().map(|a| (a, 2u8, 0usize)).rev().collect::<Vec<_>>()),
             }
         }
         if grew {
